@@ -246,6 +246,13 @@ var queryCounter int64
 // answer Unknown. The back end is chosen from the query text; on unknown/timeout the query is
 // re-issued to the other back ends (portfolio).
 func (s *Solver) Check(asserts []*Term, want []*Term) (Result, Model, string) {
+	if len(want) > 16 {
+		// decide first without the (many) extraction terms; only a sat answer needs their declarations
+		r, _, info := s.Check(asserts, nil)
+		if r != Sat {
+			return r, nil, info
+		}
+	}
 	all := append(append([]*Term{}, asserts...), want...)
 	d, err := collectDecls(all)
 	if err != nil {
@@ -356,12 +363,29 @@ func (s *Solver) checkOn(be Backend, text string, want []*Term, timeout time.Dur
 	var model Model
 	if res == Sat && len(want) > 0 {
 		model = Model{}
+		var ask []*Term
 		for _, w := range want {
 			if w.Const {
 				model[w.S] = w.S
-				continue
+			} else {
+				ask = append(ask, w)
 			}
-			ls, ok := p.send("(get-value ("+w.S+"))", 20*time.Second)
+		}
+		for len(ask) > 0 {
+			n := len(ask)
+			if n > 200 {
+				n = 200
+			}
+			chunk := ask[:n]
+			ask = ask[n:]
+			var sb strings.Builder
+			sb.WriteString("(get-value (")
+			for _, w := range chunk {
+				sb.WriteString(w.S)
+				sb.WriteByte(' ')
+			}
+			sb.WriteString("))")
+			ls, ok := p.send(sb.String(), 30*time.Second)
 			if !ok {
 				p.kill()
 				delete(s.procs, be.Name)
@@ -372,12 +396,14 @@ func (s *Solver) checkOn(be Backend, text string, want []*Term, timeout time.Dur
 				p.send("(pop 1)", 5*time.Second)
 				return Unknown, nil, "get-value error: " + out
 			}
-			v, err := parseGetValue(out)
+			vals, err := parseGetValues(out, len(chunk))
 			if err != nil {
 				p.send("(pop 1)", 5*time.Second)
-				return Unknown, nil, "get-value parse: " + out
+				return Unknown, nil, "get-value parse: " + err.Error()
 			}
-			model[w.S] = v
+			for i, w := range chunk {
+				model[w.S] = vals[i]
+			}
 		}
 	}
 	if _, ok := p.send("(pop 1)", 5*time.Second); !ok {
@@ -385,6 +411,94 @@ func (s *Solver) checkOn(be Backend, text string, want []*Term, timeout time.Dur
 		delete(s.procs, be.Name)
 	}
 	return res, model, "ok"
+}
+
+// parseGetValues extracts the n value s-exprs from "((t1 v1) (t2 v2) ...)".
+func parseGetValues(s string, n int) ([]string, error) {
+	toks, err := splitTop(strings.TrimSpace(s))
+	if err != nil {
+		return nil, err
+	}
+	if len(toks) != n {
+		return nil, fmt.Errorf("expected %d pairs, got %d", n, len(toks))
+	}
+	out := make([]string, n)
+	for i, pair := range toks {
+		kv, err := splitTop(pair)
+		if err != nil || len(kv) != 2 {
+			return nil, fmt.Errorf("bad pair %q", pair)
+		}
+		out[i] = kv[1]
+	}
+	return out, nil
+}
+
+// splitTop splits the elements of a parenthesised list "(e1 e2 ...)".
+func splitTop(s string) ([]string, error) {
+	s = strings.TrimSpace(s)
+	if len(s) < 2 || s[0] != '(' || s[len(s)-1] != ')' {
+		return nil, fmt.Errorf("not a list: %q", s)
+	}
+	s = s[1 : len(s)-1]
+	var out []string
+	i := 0
+	for i < len(s) {
+		for i < len(s) && (s[i] == ' ' || s[i] == '\n' || s[i] == '\t') {
+			i++
+		}
+		if i >= len(s) {
+			break
+		}
+		st := i
+		switch s[i] {
+		case '"':
+			i++
+			for i < len(s) {
+				if s[i] == '"' {
+					if i+1 < len(s) && s[i+1] == '"' {
+						i += 2
+						continue
+					}
+					i++
+					break
+				}
+				i++
+			}
+		case '(':
+			depth := 0
+			for i < len(s) {
+				c := s[i]
+				if c == '"' {
+					i++
+					for i < len(s) {
+						if s[i] == '"' {
+							if i+1 < len(s) && s[i+1] == '"' {
+								i += 2
+								continue
+							}
+							break
+						}
+						i++
+					}
+				} else if c == '(' {
+					depth++
+				} else if c == ')' {
+					depth--
+					if depth == 0 {
+						i++
+						break
+					}
+				}
+				i++
+			}
+		default:
+			for i < len(s) && s[i] != ' ' && s[i] != '\n' && s[i] != ')' && s[i] != '(' {
+				i++
+			}
+		}
+		out = append(out, s[st:i])
+	}
+	return out, nil
 }
 
 // parseGetValue extracts the value s-expr from "((term value))".
